@@ -276,7 +276,11 @@ def shared_service_scenario(draw, conf):
         ev += [["C", cid, draw(st.sampled_from(IPS)), draw(st.integers(1, 65535))], ["N", cid, "host%d.example.org" % (cid % 100)], ["u", cid, "id%d" % (cid % 100)],
                ["n", cid, "Nick%d" % (cid % 100)], ["U", cid, "user", "real name"]]
     ev.append(["P", a, "%s acctA pwA" % draw(st.sampled_from(["+x", "+x!", "+"]))])
-    ev.append(["P", b, "%s acctB pwB" % draw(st.sampled_from(["+x", "+x!", "+!"]))])
+    if draw(st.integers(0, 2)) == 0:
+        # ... or the first client has the service all to itself (nobody else keeps the service's record alive)
+        ev = [e_ for e_ in ev if e_[1] != b]
+    else:
+        ev.append(["P", b, "%s acctB pwB" % draw(st.sampled_from(["+x", "+x!", "+!"]))])
     how = draw(st.sampled_from(["MORE", "AGAIN", "MORE", "OK"]))
     early_drop = False
     if how == "MORE":
@@ -285,7 +289,7 @@ def shared_service_scenario(draw, conf):
             # the service is dropped while its challenge is still unanswered
             ev.append(["reconf", {"services": [list(s_) for s_ in conf["services"] if s_[0] != S]}])
             early_drop = True
-        ev += [["P", a, "mellon"]]
+        ev += [["P", a, draw(st.sampled_from(["mellon", "mellon", "a longer answer with blanks", "R" * 1050]))]]
     elif how == "AGAIN":
         ev += [["X", a, S, "AGAIN wrong password", "cur"], ["P", a, "+x acctA pwA2"]]
     for o in others:
@@ -372,7 +376,7 @@ def history_s(draw, pid, tier, conf=None, max_clients=None, distinct_ids=False, 
         conf = draw(conf_s(pid, tier))
     if pid in ("C02", "C03") and "iauth_xquery" not in conf["modules"] and "iauth_class" not in conf["modules"]:
         pass
-    if pid in ("C02", "C03", "C05", "C10") and 1 <= len(conf["services"]) <= 5 and any(s_[1] in ("login", "login-ipr", "combined") for s_ in conf["services"]) \
+    if pid in ("C02", "C03", "C05", "C06", "C10") and 1 <= len(conf["services"]) <= 5 and any(s_[1] in ("login", "login-ipr", "combined") for s_ in conf["services"]) \
             and "iauth_xquery" in conf["modules"] and draw(st.integers(0, 13)) == 0:
         return {"conf": conf, "events": shared_service_scenario(draw, conf)}
     if pid in ("C03", "C06", "C01") and draw(st.integers(0, 59)) == 0:
